@@ -6,8 +6,9 @@ import time
 import traceback
 
 VERIF = os.path.dirname(os.path.dirname(os.path.abspath(__file__)))
-EVIDENCE_DIR = os.path.join(VERIF, "evidence")
-REPLAY_DIR = os.path.join(VERIF, "replays")
+# (CV_EVIDENCE_DIR / CV_REPLAY_DIR: used only by tools/eval_seeded.py so that runs against seeded trees do not overwrite real evidence)
+EVIDENCE_DIR = os.environ.get("CV_EVIDENCE_DIR") or os.path.join(VERIF, "evidence")
+REPLAY_DIR = os.environ.get("CV_REPLAY_DIR") or os.path.join(VERIF, "replays")
 FINDINGS_FILE = os.path.join(VERIF, "known_findings.json")
 
 EXIT_OK, EXIT_VIOLATION, EXIT_UNDECIDED, EXIT_BROKEN = 0, 1, 2, 3
